@@ -38,6 +38,7 @@ use super::config;
 use super::constant::fixed::MAX_LPC_ORDER as MAX_FIXED_LPC_ORDER;
 use super::constant::panic_msg;
 use super::constant::qlpc::MAX_ORDER as MAX_LPC_ORDER;
+use super::constant::MAX_BLOCK_SIZE;
 use super::constant::MIN_BLOCK_SIZE_FOR_PREDICTION;
 use super::error::verify_range;
 use super::error::verify_true;
@@ -600,6 +601,12 @@ pub fn encode_fixed_size_frame(
         ..(1usize << 31)
     )?;
 
+    // `FrameBuf::resize` does not check the size, and a buffer can be empty.
+    verify_range!(
+        "encode_fixed_size_frame (framebuf.filled_size)",
+        framebuf.filled_size(),
+        1..=MAX_BLOCK_SIZE
+    )?;
     framebuf.verify_samples(stream_info.bits_per_sample())?;
     // NOTE: From expected use cases, wrapping `stream_info` is not practical
     // since it is mutable everywhere. On the other hand, verifying it here is
